@@ -1085,6 +1085,7 @@ func readBodyFldParam(dec *imapwire.Decoder, options *Options) (map[string]strin
 	var (
 		params map[string]string
 		k      string
+		hasKey bool // k holds a key waiting for its value (the key may be empty)
 	)
 	err := dec.ExpectNList(func() error {
 		var s string
@@ -1092,8 +1093,9 @@ func readBodyFldParam(dec *imapwire.Decoder, options *Options) (map[string]strin
 			return dec.Err()
 		}
 
-		if k == "" {
+		if !hasKey {
 			k = s
+			hasKey = true
 		} else {
 			if params == nil {
 				params = make(map[string]string)
@@ -1102,14 +1104,14 @@ func readBodyFldParam(dec *imapwire.Decoder, options *Options) (map[string]strin
 			// TODO: handle error
 
 			params[strings.ToLower(k)] = decoded
-			k = ""
+			hasKey = false
 		}
 
 		return nil
 	})
 	if err != nil {
 		return nil, err
-	} else if k != "" {
+	} else if hasKey {
 		return nil, fmt.Errorf("in body-fld-param: key without value")
 	}
 	return params, nil
